@@ -203,6 +203,88 @@ def rule_r4(ctx):
         raise AnalysisBroken("only %d / %d reads of socket-level defaults that contexts shadow" % (n, nb))
 
 
+# ---------------------------------------------------------------------------
+# R9: a scan that acts on every element visits every element
+
+
+def list_scans(f):
+    """(header block, loop variable, list field, body entry, after block, step positions) for every
+    `for (v = nni_list_first(L); v != NULL; v = nni_list_next(L, v))` loop of f"""
+    out = []
+    for b in f.blocks.values():
+        c = f.cond(b.id) if b.term and len(b.succs) == 2 else None
+        if c is None or b.term.get("kind") not in ("ForStmt", "WhileStmt"):
+            continue
+        if not (c.get("k") == "bin" and c["op"] == "!=" and c["lhs"].get("k") == "var" and const_of(c["rhs"]) == 0):
+            continue
+        var = c["lhs"]["n"]
+        steps, lf = set(), None
+        for t in f.assigns():
+            if t.node["lhs"].get("k") == "var" and t.node["lhs"]["n"] == var:
+                for m in walk(f.expand(t.node["rhs"])):
+                    if m.get("k") == "call" and m.get("fn") == "nni_list_next" and m["args"]:
+                        steps.add((t.b, t.i))
+                        lf = last_field(f.expand(m["args"][0]))
+        if steps and lf and b.succs[0] is not None:
+            out.append((b.id, var, lf, (b.succs[0], 0), b.succs[1], steps))
+    return out
+
+
+def rule_r9(ctx):
+    r = ctx.rule("C12.R9", "T2", "a scan that acts on every element visits every element: in the protocols, a loop over a list "
+                 "(NNI_LIST_FOREACH) whose loop variable is not used after the loop -- the resend scan of the REQ timer, the "
+                 "fan-out of PUB / BUS / SURVEYOR to every pipe, the delivery of SUB to every context, the option setters that "
+                 "resize every pipe's queue -- is left only when the list is exhausted: no path through its body reaches the "
+                 "code after the loop without passing the step to the next element. The resend queue is in transmission "
+                 "order, not in expiry order (the resend time is per context): stopping at the first request that is not yet due "
+                 "leaves a due request behind it unsent", floor=6)
+    prog = ctx.prog
+    n = 0
+    for f in prog.functions:
+        if f.cfg_failed or "/sp/protocol/" not in "/" + f.file or f.file.endswith("_test.c"):
+            continue
+        for hb, var, lf, body, after, steps in list_scans(f):
+            if after is None:
+                continue
+            # is the loop variable read after the loop (a search), before it is assigned again?
+            def redefines(b, i, e, var=var):
+                return e is not None and any(m.get("k") == "asg" and m["lhs"].get("k") == "var" and m["lhs"]["n"] == var
+                                             for m in walk(f.expand(e))) and not any(
+                    m.get("k") == "var" and m["n"] == var and m is not None for m in walk(f.expand(e).get("rhs") or {}))
+            later = f.reach((after, 0), blocked=redefines)
+            used = False
+            for (b, i) in later:
+                if b == hb or i >= len(f.blocks[b].elems):
+                    continue
+                e = f.blocks[b].elems[i]
+                if e is not None and any(m.get("k") == "var" and m["n"] == var for m in walk(f.expand(e))):
+                    used = True
+                    break
+            if used:
+                continue      # a search: the element found is what the code after the loop works on
+            n += 1
+            # giving up because an operation on an element failed (rv = f(..) != 0: out of memory) is not "skipping"
+            failed = {}
+            for c in f.calls():
+                if c.node.get("fn") and c.node["fn"] not in ("nni_list_first", "nni_list_next", "nni_list_empty", "nni_list_node_active"):
+                    g = prog.resolve(f, c.node["fn"])
+                    if g is not None and g.ret in ("int", "nng_err"):
+                        for b, (nz, z) in f.value_edges(c).items():
+                            failed[b] = nz
+            ok_edge = lambda b, k: not (b in failed and failed[b] == k)      # noqa: E731
+            seen = f.reach(body, blocked=lambda b, i, e: (b, i) in steps or b == hb, edge_ok=ok_edge)
+            if (after, 0) in seen:
+                path = f.find_path(body, lambda b, i: (b, i) == (after, 0), blocked=lambda b, i, e: (b, i) in steps or b == hb,
+                                   edge_ok=ok_edge)
+                ctx.fail(r, f, "scan over %s left before the list is exhausted" % lf, f.line_of(hb, 0),
+                         "%s: a path through the body of the loop over %s leaves the loop (break / goto) without moving on to the "
+                         "next element: the elements behind it are not served in this pass" % (f.name, lf), f.path_lines(path))
+            else:
+                r.ob(f, "loop over %s: every element is visited" % lf)
+    if n < 6:
+        raise AnalysisBroken("only %d exhaustive list scans found in the protocols" % n)
+
+
 def walk_global(g):
     import json as _j
     stack = [g]
@@ -335,3 +417,4 @@ def run(ctx):
     ctx.guard(rule_r6)
     ctx.guard(rule_r7)
     ctx.guard(rule_r8)
+    ctx.guard(rule_r9)
